@@ -95,19 +95,25 @@ class LodJoin(Harness):
 class LodAggregate(Harness):
     prop = "C16"; opname = "lod_aggregate"
     goals = ["list_of_dicts.py:ListOfDicts.aggregate"]
-    def __init__(self, nkeys, maxn):
-        self.nkeys = nkeys; self.maxn = maxn
-        self.name = f"C16.aggregate.k{nkeys}.n{maxn}"
-        self.bounds = {"items": f"0..{maxn}", "group keys": nkeys}
+    def __init__(self, nkeys, maxn, derive=None):
+        self.nkeys = nkeys; self.maxn = maxn; self.derive = derive
+        self.name = f"C16.aggregate.k{nkeys}{'.then_' + derive if derive else ''}.n{maxn}"
+        self.bounds = {"items": f"0..{maxn}", "group keys": nkeys,
+                       "history": f"group_by, aggregate, derive a list by {derive}, aggregate that" if derive else "group_by, aggregate"}
         self.symbolic = ["group-key values"]; self.choice_dims = ["length", "None pattern"]
     def build(self, ctx):
         n = choice("n", range(self.maxn + 1))
         keys = ["g%d" % j for j in range(self.nkeys)]
-        return {"data": LoD(mk_side(ctx, n, "x", "id", keys, ["v"])), "by": keys}
+        inp = {"data": LoD(mk_side(ctx, n, "x", "id", keys, ["v"])), "by": keys}
+        if self.derive: inp["derive"] = self.derive
+        return inp
     def spec(self, inp, out):
         if isinstance(out, Raised):
             return [(f"does not raise ({out.type}: {out.msg[:60]})", T(False))]
         X = [dict(x) for x in inp["data"].items]; by = inp["by"]; n = len(X)
+        # the list that is aggregated last: ids in its order
+        D = {None: list(range(n)), "slice": list(range(1, n)), "reverse": list(range(n - 1, -1, -1))}[inp.get("derive")]
+        pos = {i: p for p, i in enumerate(D)}
         res = out["out"]
         cl = [("result is a ListOfDicts", T(isinstance(res, LoD)))]
         if not isinstance(res, LoD): return cl
@@ -120,12 +126,13 @@ class LodAggregate(Harness):
             if list(r) != by + ["n", "ids"]: return cl
             ids = [int(str(z3.simplify(BV(x)))) if not isinstance(x, int) else x for x in ids]
             groups.append(ids)
-            cl.append(("summary computed over the group's items in original order", T(ids == sorted(ids) and len(ids) >= 1)))
+            cl.append(("summary computed over the group's items in the list's order", T(all(i in pos for i in ids) and [pos[i] for i in ids if i in pos] == sorted(pos[i] for i in ids if i in pos) and len(ids) >= 1)))
+            if not all(i in pos for i in ids): return cl
             cl.append(("n is the group's size", BV(r["n"]) == BV(len(ids))))
             for i in ids:
                 cl.append((f"item {i} belongs to the group of its summary item", same(X[i], r)))
         flat = sorted(i for g in groups for i in g)
-        cl.append(("groups are disjoint and cover all items", T(flat == list(range(n)))))
+        cl.append(("groups are disjoint and cover all items", T(flat == sorted(D))))
         for a, b in itertools.combinations(range(len(R)), 2):
             cl.append((f"summary items {a},{b} have distinct keys", z3.Not(same(R[a], R[b]))))
             # ordered by the keys with None last
@@ -151,4 +158,5 @@ def harnesses(tier):
             hs.append(LodJoin(kind, 1, 3, 3))
     hs.append(LodAggregate(1, 3 if q else 4))
     hs.append(LodAggregate(2, 2 if q else 3))
+    hs.append(LodAggregate(1, 2 if q else 3, derive="slice")); hs.append(LodAggregate(1, 2 if q else 3, derive="reverse"))
     return hs
